@@ -53,9 +53,17 @@ class BetaLikelihood(_OneDimensionalLikelihood):
 
         self.raw_scale = torch.nn.Parameter(torch.ones(*batch_shape, 1))
         if scale_prior is not None:
-            self.register_prior("scale_prior", scale_prior, lambda m: m.scale, lambda m, v: m._set_scale(v))
+            self.register_prior("scale_prior", scale_prior, self._scale_param, self._scale_closure)
 
         self.register_constraint("raw_scale", scale_constraint)
+
+    def _scale_param(self, m):
+        # Used by the scale_prior (a method rather than a lambda: the module stays picklable)
+        return m.scale
+
+    def _scale_closure(self, m, v):
+        # Used by the scale_prior
+        return m._set_scale(v)
 
     @property
     def scale(self) -> Tensor:
